@@ -43,6 +43,7 @@ func ruleREGISTER(c *Ctx) {
 		}
 		var reg *ssa.MapUpdate
 		var look *ssa.Lookup
+		var looks []*ssa.Lookup
 		for _, b := range f.Blocks {
 			for _, ins := range b.Instrs {
 				switch x := ins.(type) {
@@ -53,7 +54,17 @@ func ruleREGISTER(c *Ctx) {
 				case *ssa.Lookup:
 					if x.CommaOk && strings.HasSuffix(vpath(x.X), ".ids") {
 						look = x
+						looks = append(looks, x)
 					}
+				}
+			}
+		}
+		// a function may consult the registry under other keys too (a nonterminal's name against
+		// token IDs for the Bison export); the lookup that matters is the one of the registered key
+		if reg != nil {
+			for _, l := range looks {
+				if reg.Key == l.Index || vpath(reg.Key) == vpath(l.Index) {
+					look = l
 				}
 			}
 		}
